@@ -1,32 +1,65 @@
 #!/bin/bash
-# seedtest.sh <property> [src-worktree]  -- confirm a sub-agent's seeded defect and run our checks against it
-# 1. copy deliverables to /verif/seeded/<id>/  2. confirm in a scratch worktree: applies, builds, existing suite
-# passes, demo fails with the change and passes without  3. apply to /repo, run ./check <id>, undo.
-pid=$1; src=${2:-/tmp/wt-$pid}; name=${3:-$pid}
+# seedtest.sh <name> [srcdir]  -- confirm a sub-agent's seeded defect and run our checks against it.
+# <name> = <property>_<n> (or just <property>); deliverables (patch.diff, zz_seeded_demo_test.go, notes.md) are taken
+# from srcdir (default /tmp/wt-out/<name>) unless /verif/seeded/<name>/patch.diff already exists.
+# 1. copy deliverables to /verif/seeded/<name>/  2. confirm in a scratch worktree (removed afterwards): applies,
+# builds, existing suite passes, demo passes without the change and fails with it  3. apply to /repo, run
+# ./check <property>, undo  4. write meta.json
+name=$1; pid=${name%%_*}; src=${2:-/tmp/wt-out/$name}
 . /verif/env.sh
 if [ -n "$(git -C /repo status --porcelain)" ]; then echo "refusing: /repo has uncommitted changes (commit them first)"; exit 9; fi
 out=/verif/seeded/$name; mkdir -p $out
-cp $src/_seeded/patch.diff $out/patch.diff
-cp $src/_seeded/zz_seeded_demo_test.go $out/zz_seeded_demo_test.go 2>/dev/null || cp $src/vgirpc/zz_seeded_demo_test.go $out/
-cp $src/_seeded/notes.md $out/notes.md 2>/dev/null
+if [ -f $src/patch.diff ]; then
+  cp $src/patch.diff $out/patch.diff
+  cp $src/zz_seeded_demo_test.go $out/zz_seeded_demo_test.go
+  cp $src/notes.md $out/notes.md 2>/dev/null
+fi
 sv=/tmp/sv-$name; git -C /repo worktree remove --force $sv 2>/dev/null; git -C /repo worktree add -q --detach $sv HEAD
 res() { echo "$1" | tee -a $out/confirm.log; }
 : > $out/confirm.log
 cd $sv
-moddir=${SEED_MODDIR:-.}; pkg=${SEED_PKG:-./vgirpc}; demodir=${SEED_DEMODIR:-vgirpc}
-if ! git apply --check $out/patch.diff 2>/dev/null; then res "patch: DOES NOT APPLY to current /repo HEAD"; git -C /repo worktree remove --force $sv; exit 3; fi
+# module / package the patch touches
+first=$(grep -m1 '^+++ b/' $out/patch.diff | sed 's|^+++ b/||')
+case "$first" in
+  vgirpc/s3/*) moddir=vgirpc/s3; pkg=.; demodir=vgirpc/s3;;
+  vgirpc/gcs/*) moddir=vgirpc/gcs; pkg=.; demodir=vgirpc/gcs;;
+  vgirpc/otel/*) moddir=vgirpc/otel; pkg=.; demodir=vgirpc/otel;;
+  *) moddir=.; pkg=./vgirpc; demodir=vgirpc;;
+esac
+moddir=${SEED_MODDIR:-$moddir}; pkg=${SEED_PKG:-$pkg}; demodir=${SEED_DEMODIR:-$demodir}
+if ! git apply --check $out/patch.diff 2>/dev/null; then res "patch: DOES NOT APPLY to current /repo HEAD"; cd /verif; git -C /repo worktree remove --force $sv; exit 3; fi
 cp $out/zz_seeded_demo_test.go $demodir/
 cd $moddir
-d0=$(go test -vet=off -count=1 -timeout 600s -run '^TestSeededDemo$' $pkg 2>&1 | tail -3); echo "$d0" | grep -q "^ok" && res "demo without change: PASS" || res "demo without change: FAIL ($d0)"
+d0=$(go test -vet=off -count=1 -timeout 600s -run '^TestSeededDemo' $pkg 2>&1 | tail -3); echo "$d0" | grep -q "^ok" && res "demo without change: PASS" || res "demo without change: FAIL ($d0)"
 (cd $sv && git apply $out/patch.diff)
 go build ./... 2>&1 | tail -3 && res "build with change: ok"
-s1=$(go test -vet=off -count=1 -timeout 900s -skip TestSeededDemo $pkg 2>&1 | tail -2); echo "$s1" | grep -q "^ok" && res "existing suite with change: PASS" || res "existing suite with change: FAIL ($s1)"
-d1=$(go test -vet=off -count=1 -timeout 600s -run '^TestSeededDemo$' $pkg 2>&1 | tail -15); echo "$d1" | grep -q "FAIL" && res "demo with change: FAIL (as required)" || res "demo with change: PASS (not a valid seed)"
+s1=$(go test -vet=off -count=1 -timeout 1200s -skip TestSeededDemo ./... 2>&1 | grep -v "no test files" | tail -4); echo "$s1" | grep -q "FAIL" && res "existing suite with change: FAIL ($s1)" || res "existing suite with change: PASS"
+d1=$(go test -vet=off -count=1 -timeout 600s -run '^TestSeededDemo' $pkg 2>&1 | tail -15); echo "$d1" | grep -q "FAIL" && res "demo with change: FAIL (as required)" || res "demo with change: PASS (not a valid seed)"
 echo "$d1" > $out/demo_output_with_change.txt
-cd /verif; git -C /repo worktree remove --force $sv
+cd /verif; git -C /repo worktree remove --force $sv; rm -rf $sv
 # our check
 git -C /repo apply $out/patch.diff
-chk=$(./check $pid --tier quick 2>&1); rc=$?
-git -C /repo checkout -- . 
+chk=$(VERIF_NO_EVIDENCE=1 ./check $pid --tier quick 2>&1); rc=$?
+git -C /repo checkout -- . ; git -C /repo clean -fdq
 echo "$chk" | grep -E "VIOLATION|UNDECIDED|failed obligation|^property" | cut -c1-260 | tee $out/check_output.txt
 res "check exit code: $rc"
+python3 - "$name" "$pid" "$out" "$rc" <<'PY'
+import sys, json, os, re
+name, pid, out, rc = sys.argv[1:5]
+mp = os.path.join(out, "meta.json")
+meta = json.load(open(mp)) if os.path.exists(mp) else {}
+notes = open(os.path.join(out, "notes.md")).read() if os.path.exists(os.path.join(out, "notes.md")) else ""
+meta.setdefault("property", pid)
+meta.setdefault("breaks", "property " + pid)
+meta.setdefault("author", "independent sub-agent given only the property text and a scratch worktree (contract files removed)")
+if "needs_to_manifest" not in meta:
+    m = re.search(r"(?is)##?\s*what it needs to manifest\s*\n(.*?)(\n##|\Z)", notes) or re.search(r"(?is)needs? .*?to manifest[^\n]*\n(.*?)(\n##|\Z)", notes)
+    meta["needs_to_manifest"] = (m.group(1).strip()[:900] if m else "see notes.md")
+meta["confirmed"] = [l.strip() for l in open(os.path.join(out, "confirm.log")) if l.strip()]
+meta["ran"] = ["git apply patch.diff in a scratch worktree of /repo HEAD", "go build ./...", "go test -vet=off -count=1 -skip TestSeededDemo ./... (existing suite, module of the change)",
+               "go test -run '^TestSeededDemo' with and without the change", "git -C /repo apply patch.diff; ./check %s --tier quick; git -C /repo checkout -- ." % pid]
+co = open(os.path.join(out, "check_output.txt")).read()
+meta["caught_by_obligations"] = re.findall(r"failed obligation: (\S+)", co)
+meta["check_exit_code"] = int(rc)
+json.dump(meta, open(mp, "w"), indent=1)
+PY
